@@ -35,7 +35,7 @@ impl Scenario for C38 {
             real: vec!["every lock acquisition of the server: MessageHandler and all services, SessionManager / Session, AddressSpace, ServerState, subscriptions timer task, TcpTransport reader / writer / finish, method callbacks, certificate store", "the lock wrappers delegate to the real parking_lot locks"],
             stubbed: vec!["TCP socket", "thread scheduling (one simulated thread: the graph predicts deadlocks, it does not execute them)"],
             assumptions: vec!["edges are per protected type; two instances of one type are told apart by address only to separate re-entrancy from sibling nesting", "try_* acquisitions create no incoming edge (they cannot block)"],
-            fault_kinds: vec!["randomised_request", "timer_tick", "connection_drop", "application_write", "event_raised", "second_connection"],
+            fault_kinds: vec!["randomised_request", "timer_tick", "connection_drop", "application_write", "event_raised", "second_connection", "foreign_session_token"],
         }
     }
     fn runs(&self, tier: Tier) -> u64 {
@@ -80,6 +80,7 @@ impl Scenario for C38 {
             match rng.below(12) {
                 0 => steps.push(json!({"conn": conn, "kind": if rng.chance(0.5) { "drop" } else { "close_session" }, "reconnect": rng.chance(0.7), "ticks": rng.below(3)})),
                 1 => steps.push(json!({"conn": conn, "kind": "app_write", "ticks": rng.below(2)})),
+                2 => steps.push(json!({"conn": conn, "kind": *rng.pick(&["activate", "activate", "read", "publish", "modify_sub", "create_sub"]), "foreign_token": true, "rseed": rng.next_u64() >> 12, "ticks": rng.below(3)})),
                 _ => steps.push(json!({"conn": conn, "kind": *rng.pick(&enabled), "rseed": rng.next_u64() >> 12, "ticks": rng.below(4), "event": rng.chance(0.2)})),
             }
         }
@@ -209,7 +210,14 @@ async fn run(plan: &Value, ctx: &mut Ctx) -> Option<std::sync::Arc<locks::Record
                     continue;
                 }
                 let mut rng = Rng::new(s["rseed"].as_u64().unwrap_or(1));
-                let hdr = sides[k].c.header();
+                let mut hdr = sides[k].c.header();
+                if s["foreign_token"].as_bool().unwrap_or(false) {
+                    // the other connection's session token (a client that moves its session to a new
+                    // channel, or a confused / hostile one): the server looks the session up in the shared
+                    // session manager and locks it from this connection's task
+                    ctx.fault("foreign_session_token");
+                    hdr.authentication_token = sides[1 - k].c.auth_token.clone();
+                }
                 let req = {
                     let mut g = G { r: &mut rng, ns, subs: sides[k].subs.clone(), items: sides[k].items.clone(), cps: sides[k].cps.clone(), client_sig: SignatureData::null() };
                     g.request(&kind, hdr)
